@@ -1604,6 +1604,29 @@ func (fs *fullStack) runFullStack(mode simnet.LinkMode, tapeS *simrt.Stream) {
 	}
 }
 
+// panicSite extracts the function that called panic() from a recovered stack ("pkg.(*T).Method").
+func panicSite(stack string) string {
+	lines := strings.Split(stack, "\n")
+	for i, l := range lines {
+		if strings.HasPrefix(l, "panic(") {
+			for j := i + 1; j < len(lines); j++ {
+				f := strings.TrimSpace(lines[j])
+				if f == "" || strings.HasPrefix(f, "/") || strings.HasPrefix(lines[j], "\t") {
+					continue
+				}
+				if k := strings.LastIndexByte(f, '('); k > 0 {
+					f = f[:k]
+				}
+				if k := strings.LastIndexByte(f, '/'); k >= 0 {
+					f = f[k+1:]
+				}
+				return f
+			}
+		}
+	}
+	return "unknown"
+}
+
 // ---- run ---------------------------------------------------------------------------------------------------
 
 func run(t *testing.T, tape *simrt.Tape) *common.Outcome {
@@ -1670,7 +1693,9 @@ func run(t *testing.T, tape *simrt.Tape) *common.Outcome {
 	o.Sig = stratumName + "|" + secu + "|" + strings.Join(w.sig, ";")
 	o.Nontrivial = w.ackedBlock > 0 && w.checked > 0
 	if res.Panic != "" {
-		o.Violate("C10/panic", "%s", res.Panic)
+		// a task of the stack panicked (= the node's process would have died). The class names the function that
+		// panicked, so that a crash outside the gating code gets its own class.
+		o.Violate("C10/panic/"+panicSite(res.Panic), "%s", res.Panic)
 	}
 	if (res.Stuck || res.StepLimit) && o.Trouble == "" {
 		o.Trouble = fmt.Sprintf("stuck=%v steplimit=%v", res.Stuck, res.StepLimit)
